@@ -159,6 +159,18 @@ func r07_2(c *Ctx, r *Report) {
 									}
 								}
 							}
+							// the month's day count, through its getter or as the field
+							if rc, f, ok := getterField(c, v); ok && f == "LunarMonth.dayCount" {
+								if t, ok := evalWith(fr, rc, leaf); ok {
+									if ptr, isP := t.(absPtr); isP && ptr.tag == "month" {
+										if ptr.isNil {
+											problems["the day count of a month that was not found is read"] = true
+											return nil, false
+										}
+										return dc, true
+									}
+								}
+							}
 							call, ok := v.(*ssa.Call)
 							if !ok || call.Common().StaticCallee() == nil {
 								return nil, false
